@@ -389,3 +389,594 @@ class ShufflerIter(StreamOp):
 
 
 UNITS += [CountLemmas, ShufflerIter]
+
+
+# ================================================================ constructors (__init__) of the operator classes
+import ast as _ast
+from pyvc.core import ClassCtor, KwPack, NOKW, Closure
+
+partial_ = z3.Function('functools_partial', Val, Val, Val)       # functools.partial(f, **kw) as a value
+
+
+def _partial_model():
+    def f(ex, st, args, kwargs, node):
+        pack = kwargs.get('**')
+        if len(args) != 1 or not isinstance(pack, KwPack) or len(kwargs) != 1:
+            raise Unsupported('functools.partial shape')
+        return [('ok', st, partial_(box(ex, args[0]), pack.val))]
+    return Fn(f, trusted='functools.partial(f, **kw)(x) == f(x, **kw)', name='functools.partial')
+
+
+class InitUnit(Unit):
+    """__init__ of an operator class: stores its arguments (the operator's __iter__ contract reads them back)."""
+    prop = 'C03'
+    file = F
+    fields = {}          # attribute -> parameter name (stored unchanged)
+    partial_field = None  # (attribute, param): stored as partial(param, **kwargs) if kwargs else param
+    int_params = ()      # parameters that are ints (so `assert n > 0` can be evaluated)
+    requires = None      # (P) -> z3 Bool over int params: the documented precondition (assert statements)
+    assert_mode = 'raise'
+
+    def setup(self, ex):
+        st = St()
+        self.me = Rec(ex, 'self')
+        st.env['self'] = self.me
+        fn, _, _ = self.load()
+        self.P = {}
+        a = fn.args
+        for p in a.posonlyargs + a.args + a.kwonlyargs:
+            if p.arg == 'self':
+                continue
+            if p.arg in self.int_params:
+                self.P[p.arg] = z3.Int('p_' + p.arg)
+            else:
+                self.P[p.arg] = z3.Const('p_' + p.arg, Val)
+            st.env[p.arg] = self.P[p.arg]
+        if a.kwarg is not None:
+            self.kw = KwPack(z3.Const('p_kwargs', Val))
+            st.env[a.kwarg.arg] = self.kw
+        ex.globals['functools'] = Module('functools')
+        ex.globals['functools.partial'] = _partial_model()
+        return st
+
+    def post(self, ex, outs):
+        for k, s, p in outs:
+            if k in ('normal', 'return'):
+                conds = []
+                for attr, par in self.fields.items():
+                    conds.append(box(ex, self.me.get(s, attr)) == box(ex, self.P[par]))
+                if self.partial_field:
+                    attr, par = self.partial_field
+                    conds.append(box(ex, self.me.get(s, attr)) == z3.If(self.kw.val != NOKW, partial_(self.P[par], self.kw.val), self.P[par]))
+                if self.requires is not None:
+                    conds.append(self.requires(self.P))
+                ex.oblige(s, 'exit: stores its arguments unchanged (callable bound with its kwargs); precondition held', z3.And(conds))
+            elif k == 'raise':
+                ok = self.requires(self.P) if self.requires is not None else z3.BoolVal(True)
+                ex.oblige(s, 'exit(raise): only AssertionError, and only when the documented precondition is violated',
+                          z3.And(V.isinst(p, 'AssertionError'), z3.Not(ok)))
+
+
+def mk_init(cls, fields, partial_field=None, int_params=(), requires=None, canaries=()):
+    return type(cls + 'Init', (InitUnit,), dict(qual=f'{cls}.__init__', fields=fields, partial_field=partial_field,
+                                                 int_params=int_params, requires=staticmethod(requires) if requires else None,
+                                                 canaries=canaries))
+
+
+MapperInit = mk_init('Mapper', {'_instream': 'instream'}, ('func', 'func'),
+                     canaries=(('kwargs dropped', 'functools.partial(func, **kwargs) if kwargs else func', 'func', 'stores its arguments'),))
+FilterInit = mk_init('Filter', {'_instream': 'instream'}, ('func', 'func'))
+HeaderInit = mk_init('Header', {'_instream': 'instream', 'n': 'n'}, int_params=('n',), requires=lambda P: P['n'] > 0,
+                     canaries=(('stores n+1', 'self.n = n', 'self.n = n + 1', 'stores its arguments'),))
+TailerInit = mk_init('Tailer', {'_instream': 'instream', 'n': 'n'}, int_params=('n',), requires=lambda P: P['n'] > 0)
+GrouperInit = mk_init('Grouper', {'_instream': 'instream'}, ('key', 'key'))
+BatcherInit = mk_init('Batcher', {'_instream': 'instream', '_batch_size': 'batch_size'}, int_params=('batch_size',),
+                      requires=lambda P: P['batch_size'] > 0)
+UnbatcherInit = mk_init('Unbatcher', {'_instream': 'instream'})
+ShufflerInit = mk_init('Shuffler', {'_instream': 'instream', '_buffersize': 'buffer_size'}, int_params=('buffer_size',),
+                       requires=lambda P: P['buffer_size'] > 0)
+BufferInit = mk_init('Buffer', {'_instream': 'instream', 'maxsize': 'maxsize', '_externally_stopped': 'to_stop'}, int_params=('maxsize',),
+                     requires=lambda P: z3.And(P['maxsize'] >= 1, P['maxsize'] <= 10000))
+
+
+# ================================================================ builders: append exactly one lazy streamlet, consume nothing
+OPS = ('Mapper', 'Filter', 'Shuffler', 'Header', 'Tailer', 'Grouper', 'Batcher', 'Unbatcher', 'Buffer', 'Parmapper', 'ParmapperAsync')
+is_coro = z3.Function('inspect_iscoroutinefunction', Val, z3.BoolSort())
+call_method = z3.Function('self_method_call', z3.StringSort(), Val, Val)      # result of self.<m>(arg) for delegating builders
+
+
+class BuilderUnit(Unit):
+    """Stream.<op>(...): ghost: the source is an opaque value inside streamlets[0]; nothing here can pull from it
+    (any attempt to iterate/len/list a streamlet is an unsupported or failing operation)."""
+    prop = 'C03'
+    file = F
+    expect = None        # (self, C, last, P, kw) -> expected new streamlet term
+    delegates = None     # name of the Stream method this builder returns a call of (filter/map)
+
+    def setup(self, ex):
+        st = St()
+        self.sl0 = z3.Const('streamlets0', SeqV)
+        st.assume(z3.Length(self.sl0) >= 1)
+        self.C = {n: ClassCtor(n) for n in OPS}
+        for n, c in self.C.items():
+            ex.globals[n] = c
+        methods = {}
+        for m in ('map', 'filter'):
+            def mk(m):
+                def f(ex2, st2, args, kwargs, node):
+                    if len(args) != 1 or kwargs:
+                        raise Unsupported('delegation shape')
+                    st2 = st2.fork()
+                    st2.ghost['delegated'] = st2.ghost.get('delegated', ()) + ((m, box(ex2, args[0])),)
+                    return [('ok', st2, call_method(z3.StringVal(m), box(ex2, args[0])))]
+                return Fn(f, name='Stream.' + m)
+            methods[m] = mk(m)
+        self.me = Rec(ex, 'self', methods=methods).init(st, streamlets=self.sl0)
+        st.env['self'] = self.me
+        fn, _, _ = self.load()
+        self.P = {}
+        a = fn.args
+        for p in a.posonlyargs + a.args + a.kwonlyargs:
+            if p.arg == 'self':
+                continue
+            self.P[p.arg] = z3.Const('p_' + p.arg, Val)
+            st.env[p.arg] = self.P[p.arg]
+        self.kw = None
+        if a.kwarg is not None:
+            self.kw = KwPack(z3.Const('p_kwargs', Val))
+            st.env[a.kwarg.arg] = self.kw
+        ex.globals['inspect'] = Module('inspect')
+        ex.globals['inspect.iscoroutinefunction'] = Fn(lambda ex2, st2, args, kwargs, node: [('ok', st2, is_coro(box(ex2, args[0])))],
+                                                       trusted='inspect.iscoroutinefunction is a pure predicate of its argument')
+        ex.globals['random'] = Module('random')
+        ex.globals['remote_exception'] = Module('remote_exception')
+        ex.globals['traceback'] = Module('traceback')
+        ex.globals['NOTSET'] = z3.Const('NOTSET', Val)
+        self.extra_setup(ex, st)
+        return st
+
+    def extra_setup(self, ex, st):
+        pass
+
+    def post(self, ex, outs):
+        for k, s, p in outs:
+            if k == 'raise':
+                self.post_raise(ex, s, p)
+                continue
+            if k not in ('normal', 'return'):
+                continue
+            sl = self.me.get(s, 'streamlets')
+            if self.delegates:
+                d = s.ghost.get('delegated', ())
+                ex.oblige(s, f'exit: returns self.{self.delegates}(<helper>) exactly once and touches nothing else',
+                          z3.And(z3.BoolVal(len(d) == 1 and d[0][0] == self.delegates), sl == self.sl0,
+                                 box(ex, p) == call_method(z3.StringVal(self.delegates), d[0][1]) if d else z3.BoolVal(False)))
+                self.post_delegate(ex, s, d[0][1] if d else None)
+            else:
+                want = self.expect(self.C, V.last(self.sl0), self.P, self.kw)
+                ex.oblige(s, 'exit: appends exactly one lazy streamlet wrapping the previous one; returns self; consumes nothing',
+                          z3.And(sl == z3.Concat(self.sl0, z3.Unit(want)), box(ex, p) == self.me.val()))
+
+    def post_raise(self, ex, s, p):
+        ex.oblige(s, 'exit(raise): builder does not raise', False)
+
+    def post_delegate(self, ex, s, helper):
+        pass
+
+
+def mk_builder(name, expect=None, delegates=None, canaries=(), base=BuilderUnit, **extra):
+    d = dict(qual=f'Stream.{name}', delegates=delegates, canaries=canaries, **extra)
+    if expect:
+        d['expect'] = staticmethod(expect)
+    return type('Build_' + name, (base,), d)
+
+
+def T(C, name, args, kw=None, **kwargs):
+    """expected constructor term"""
+    k = dict(kwargs)
+    if kw is not None:
+        k['**'] = kw
+    return C[name].term(None, list(args), k)
+
+
+B_map = mk_builder('map', lambda C, last, P, kw: T(C, 'Mapper', [last, P['func']], kw),
+                   canaries=(('wraps the source instead of the previous streamlet', 'Mapper(self.streamlets[-1], func, **kwargs)', 'Mapper(self.streamlets[0], func, **kwargs)', 'appends exactly one'),
+                             ('consumes the source while building', 'self.streamlets.append(Mapper(self.streamlets[-1], func, **kwargs))',
+                              'self.streamlets.append(Mapper(list(self.streamlets[-1]), func, **kwargs))', '')))
+B_filter = mk_builder('filter', lambda C, last, P, kw: T(C, 'Filter', [last, P['func']], kw))
+B_shuffle = mk_builder('shuffle', lambda C, last, P, kw: T(C, 'Shuffler', [last], buffer_size=P['buffer_size']))
+B_head = mk_builder('head', lambda C, last, P, kw: T(C, 'Header', [last, P['n']]))
+B_tail = mk_builder('tail', lambda C, last, P, kw: T(C, 'Tailer', [last, P['n']]),
+                    canaries=(('tail builds a Header', 'Tailer(self.streamlets[-1], n)', 'Header(self.streamlets[-1], n)', 'appends exactly one'),))
+B_groupby = mk_builder('groupby', lambda C, last, P, kw: T(C, 'Grouper', [last, P['key']], kw))
+B_batch = mk_builder('batch', lambda C, last, P, kw: T(C, 'Batcher', [last, P['batch_size']]))
+B_unbatch = mk_builder('unbatch', lambda C, last, P, kw: T(C, 'Unbatcher', [last]))
+B_buffer = mk_builder('buffer', lambda C, last, P, kw: T(C, 'Buffer', [last, P['maxsize']]))
+B_parmap = mk_builder('parmap', lambda C, last, P, kw: z3.If(
+    is_coro(P['func']),
+    T(C, 'ParmapperAsync', [last, P['func']], kw, concurrency=P['concurrency'], return_x=P['return_x'], return_exceptions=P['return_exceptions']),
+    T(C, 'Parmapper', [last, P['func']], kw, concurrency=P['concurrency'], return_x=P['return_x'], return_exceptions=P['return_exceptions'])),
+    canaries=(('return_x and return_exceptions swapped', 'return_x=return_x,\n                return_exceptions=return_exceptions,',
+               'return_x=return_exceptions,\n                return_exceptions=return_x,', 'appends exactly one'),))
+
+
+# ---- Stream core
+class StreamInit(Unit):
+    prop = 'C03'
+    file = F
+    qual = 'Stream.__init__'
+
+    def setup(self, ex):
+        st = St()
+        self.me = Rec(ex, 'self')
+        st.env['self'] = self.me
+        self.ins = z3.Const('instream', Val)
+        st.env['instream'] = self.ins
+        return st
+
+    def post(self, ex, outs):
+        for k, s, p in outs:
+            if k in ('normal', 'return'):
+                ex.oblige(s, 'exit: streamlets == [instream] (nothing consumed)', self.me.get(s, 'streamlets') == z3.Unit(self.ins))
+            else:
+                ex.oblige(s, 'exit: does not raise', False)
+
+
+iter_of = z3.Function('iter_of', Val, Val)       # streamlet.__iter__()
+
+
+class IterModel:
+    """sym model: calling .__iter__() on an opaque streamlet value returns iter_of(streamlet)"""
+
+    def getattr(self, ex, st, base, attr, node):
+        from pyvc.core import SymMethod
+        if attr == '__iter__':
+            return [('ok', st, SymMethod(self, base, attr))]
+        raise Unsupported(f'streamlet.{attr}')
+
+    def call(self, ex, st, recv, name, args, kwargs, node):
+        return [('ok', st, iter_of(recv))]
+
+
+class StreamIter(Unit):
+    prop = 'C03'
+    file = F
+    qual = 'Stream.__iter__'
+    canaries = (('iterates the source, not the pipeline', 'self.streamlets[-1].__iter__()', 'self.streamlets[0].__iter__()', 'iterates the last streamlet'),)
+
+    def setup(self, ex):
+        st = St()
+        self.sl0 = z3.Const('streamlets0', SeqV)
+        st.assume(z3.Length(self.sl0) >= 1)
+        self.me = Rec(ex, 'self', immutable=True).init(st, streamlets=self.sl0)
+        st.env['self'] = self.me
+        ex.sym_models['self.streamlets[-1]'] = IterModel()
+        ex.sym_models['self.streamlets[0]'] = IterModel()
+        return st
+
+    def post(self, ex, outs):
+        for k, s, p in outs:
+            if k in ('normal', 'return'):
+                ex.oblige(s, 'exit: iterates the last streamlet (the whole pipeline)', box(ex, p) == iter_of(V.last(self.sl0)))
+            else:
+                ex.oblige(s, 'exit: does not raise', False)
+
+
+class StreamAsSource(Source):
+    """`self` of Stream.collect/drain as an iterable: iterating it is iterating the pipeline (Stream.__iter__ contract)."""
+
+
+class StreamDrain(StreamOp):
+    qual = 'Stream.drain'
+    consumer_may_stop = False
+    assumed_contracts = ('iter(self) yields the pipeline output: unit C03:Stream.__iter__',)
+    canaries = (('counts twice', 'n += 1', 'n += 2', 'invariant preserved'),)
+
+    def setup(self, ex):
+        st = St()
+        self.src = Source(ex, 'src', may_raise='BaseException')
+        self.src.init(st)
+        st.env['self'] = self.src
+        st.ghost['out'] = V.EMPTY
+        return st
+
+    @property
+    def loops(self):
+        return {0: LoopSpec(inv=lambda s, ex: z3.And(self.live(s), s.env['n'] == z3.Length(self.seen(s))))}
+
+    def post(self, ex, outs):
+        for k, s, p in outs:
+            if k in ('normal', 'return'):
+                ex.oblige(s, 'exit: returns the number of elements of the pipeline output, having consumed all of it',
+                          z3.And(p == z3.Length(self.seen(s)), self.src.done(s)))
+            elif k == 'raise':
+                ex.oblige(s, 'exit(raise): only the pipeline\'s own error', z3.And(self.src.failed(s), p == s.ghost['src.error']))
+
+
+class SourceToList(Source):
+    def to_list(self, ex, st, node):
+        """list(iterable): trusted builtin — pulls until exhaustion (or the iterable's error)."""
+        s1 = st.fork()
+        allv = fresh('all', SeqV)
+        s1.ghost[self.key + '.seen'] = allv
+        s1.ghost[self.key + '.done'] = z3.BoolVal(True)
+        outs = [('ok', s1, allv)]
+        if self.may_raise:
+            s2 = st.fork()
+            e = fresh('e_src')
+            s2.assume(V.isinst(e, self.may_raise))
+            s2.ghost[self.key + '.failed'] = z3.BoolVal(True)
+            s2.ghost[self.key + '.error'] = e
+            outs.append(('raise', s2, e))
+        return outs
+
+
+class StreamCollect(StreamOp):
+    qual = 'Stream.collect'
+    consumer_may_stop = False
+    trusted = ('list(iterable) returns all elements the iterable yields, in order',)
+    canaries = (('drops the first element', 'return list(self)', 'return list(self)[1:]', 'returns all elements'),)
+
+    def setup(self, ex):
+        st = St()
+        self.src = SourceToList(ex, 'src', may_raise='BaseException')
+        self.src.init(st)
+        st.env['self'] = self.src
+        st.ghost['out'] = V.EMPTY
+        return st
+
+    def post(self, ex, outs):
+        for k, s, p in outs:
+            if k in ('normal', 'return'):
+                ex.oblige(s, 'exit: returns all elements of the pipeline output in order', z3.And(box(ex, p) == V.lst(self.seen(s)), self.src.done(s)))
+
+
+# ---- groupby: delegation to itertools.groupby (trusted) with the same source and key
+gb = z3.Function('itertools_groupby', Val, Val, Val)
+
+
+class GroupbyObj(Rec):
+    def __init__(self, ex, term):
+        super().__init__(ex, 'groupby')
+        self.term = term
+
+    def yield_from(self, ex, st, node):
+        st = st.fork()
+        st.ghost['yielded_from'] = st.ghost.get('yielded_from', ()) + (self.term,)
+        return [('ok', st, NONE)]
+
+
+class GrouperIter(Unit):
+    prop = 'C03'
+    file = F
+    qual = 'Grouper.__iter__'
+    trusted = ('itertools.groupby(iterable, key): consecutive elements with equal key form one (key, group) pair, lazily',)
+    canaries = (('key function dropped', 'itertools.groupby(self._instream, self.key)', 'itertools.groupby(self._instream)', 'delegates'),)
+
+    def setup(self, ex):
+        st = St()
+        self.ins, self.key = z3.Const('instream', Val), z3.Const('key', Val)
+        st.env['self'] = Rec(ex, 'self', immutable=True).init(st, _instream=self.ins, key=self.key)
+        ex.globals['itertools'] = Module('itertools')
+
+        def f(ex2, st2, args, kwargs, node):
+            if len(args) == 2 and not kwargs:
+                return [('ok', st2, GroupbyObj(ex2, gb(box(ex2, args[0]), box(ex2, args[1]))))]
+            if len(args) == 1 and not kwargs:
+                return [('ok', st2, GroupbyObj(ex2, gb(box(ex2, args[0]), NONE)))]
+            raise Unsupported('groupby shape')
+        ex.globals['itertools.groupby'] = Fn(f, trusted=self.trusted[0])
+        return st
+
+    def post(self, ex, outs):
+        for k, s, p in outs:
+            if k in ('normal', 'return'):
+                y = s.ghost.get('yielded_from', ())
+                ex.oblige(s, 'exit: delegates to itertools.groupby(source, key) and yields everything it yields, nothing else',
+                          z3.And(z3.BoolVal(len(y) == 1), y[0] == gb(self.ins, self.key) if y else z3.BoolVal(False)))
+            else:
+                ex.oblige(s, 'exit: no other exit', False)
+
+
+UNITS += [MapperInit, FilterInit, HeaderInit, TailerInit, GrouperInit, BatcherInit, UnbatcherInit, ShufflerInit, BufferInit,
+          B_map, B_filter, B_shuffle, B_head, B_tail, B_groupby, B_batch, B_unbatch, B_buffer, B_parmap,
+          StreamInit, StreamIter, StreamDrain, StreamCollect, GrouperIter]
+
+
+# ================================================================ filter_exceptions / accumulate / peek
+from pyvc.core import dyn_isinst
+from pyvc.models import Nop
+
+
+class FooUnit(Unit):
+    """The predicate built by filter_exceptions: keep / drop / raise exception elements, pass everything else."""
+    prop = 'C03'
+    file = F
+    qual = 'Stream.filter_exceptions.<locals>.foo'
+    canaries = (
+        ('drop checked before keep', 'if keep_exc_types is not None and isinstance(x, keep_exc_types):\n                    return True',
+         'if keep_exc_types is not None and isinstance(x, keep_exc_types) and not (drop_exc_types is not None and isinstance(x, drop_exc_types)):\n                    return True', 'documented'),
+        ('unlisted exceptions silently dropped', 'raise x', 'return False', 'documented'),
+    )
+
+    def setup(self, ex):
+        st = St()
+        self.x = z3.Const('x', Val)
+        self.keep, self.drop = z3.Const('keep_exc_types', Val), z3.Const('drop_exc_types', Val)
+        st.env['x'] = self.x
+        st.cells['keep_exc_types'] = self.keep
+        st.cells['drop_exc_types'] = self.drop
+        return st
+
+    def post(self, ex, outs):
+        isexc = V.isinst(self.x, 'BaseException')
+        kept = z3.And(self.keep != NONE, dyn_isinst(self.x, self.keep))
+        dropped = z3.And(self.drop != NONE, dyn_isinst(self.x, self.drop))
+        for k, s, p in outs:
+            if k in ('normal', 'return'):
+                ex.oblige(s, 'exit(return): documented meaning: non-exceptions kept; exceptions kept if in keep (checked first), dropped if in drop',
+                          z3.And(ex.truth(s, p) == z3.Or(z3.Not(isexc), kept), z3.Or(z3.Not(isexc), kept, dropped)))
+            elif k == 'raise':
+                ex.oblige(s, 'exit(raise): documented meaning: an exception element neither kept nor dropped is raised itself',
+                          z3.And(p == self.x, isexc, z3.Not(kept), z3.Not(dropped)))
+
+
+class B_filter_exceptions(BuilderUnit):
+    qual = 'Stream.filter_exceptions'
+    delegates = 'filter'
+    assumed_contracts = ('foo: unit C03:Stream.filter_exceptions.<locals>.foo',)
+
+    def post_delegate(self, ex, s, helper):
+        from pyvc.core import unbox_handle
+        h = unbox_handle(ex, helper)
+        ex.oblige(s, 'exit: the predicate handed to filter is the local function foo', z3.BoolVal(isinstance(h, Closure) and getattr(h.node, 'name', '') == 'foo'))
+
+
+class AccumulatorCall(Unit):
+    prop = 'C03'
+    file = F
+    qual = 'Stream.accumulate.<locals>.Accumulator.__call__'
+    canaries = (
+        ('state not updated', 'self._initializer = z', 'pass', 'scan step'),
+        ('arguments swapped', 'z = self._func(z, x, **self._kwargs)', 'z = self._func(x, z, **self._kwargs)', 'scan step'),
+    )
+
+    def setup(self, ex):
+        st = St()
+        self.x, self.init = z3.Const('x', Val), z3.Const('acc', Val)
+        self.NOTSET = z3.Const('NOTSET', Val)
+        self.f = UFunc('acc_f', 2, raises='Exception')
+        self.kw = KwPack(z3.Const('acc_kwargs', Val))
+        self.me = Rec(ex, 'self').init(st, _func=self.f, _initializer=self.init, _kwargs=self.kw)
+        st.env['self'] = self.me
+        st.env['x'] = self.x
+        ex.globals['NOTSET'] = self.NOTSET
+        return st
+
+    def post(self, ex, outs):
+        fz, ok, exc = self.f.app(ex, self.init, self.x, kw=self.kw.val)
+        want = z3.If(self.init == self.NOTSET, self.x, fz)
+        for k, s, p in outs:
+            if k in ('normal', 'return'):
+                ex.oblige(s, 'exit: scan step: returns x (first element, no initializer) or func(acc, x, **kwargs), and remembers it',
+                          z3.And(box(ex, p) == want, box(ex, self.me.get(s, '_initializer')) == want))
+            elif k == 'raise':
+                ex.oblige(s, 'exit(raise): only func\'s own error; the accumulated state is unchanged',
+                          z3.And(p == exc, z3.Not(ok), self.init != self.NOTSET, box(ex, self.me.get(s, '_initializer')) == self.init))
+
+
+class B_accumulate(BuilderUnit):
+    qual = 'Stream.accumulate'
+    delegates = 'map'
+    assumed_contracts = ('Accumulator.__call__: unit C03:...Accumulator.__call__; Accumulator.__init__ stores func/initializer/kwargs (checked here syntactically: not decided)',)
+
+    def post_delegate(self, ex, s, helper):
+        ctor = s.env.get('Accumulator')
+        ex.oblige(s, 'exit: the function handed to map is a fresh Accumulator()', helper == ctor.term(ex, [], {}) if isinstance(ctor, ClassCtor) else z3.BoolVal(False))
+
+
+class PeekerCall(Unit):
+    prop = 'C03'
+    file = F
+    qual = 'Stream.peek.<locals>.Peeker.__call__'
+    interval_kind = 'int'
+    unreachable_ok = ('pass',)      # `except AttributeError: pass` around x.__traceback__ (an exception object always has it)
+    trusted = ('print_func and the traceback/remote_exception formatting helpers return normally and have no effect on the stream',)
+    canaries = (('swallows exception elements', '                    self._print_func(f\'{x}{self._suffix}\')\n                return x',
+                 '                    self._print_func(f\'{x}{self._suffix}\')\n                return None', 'identity'),)
+
+    def __init__(self):
+        self.variant = self.interval_kind
+        super().__init__()
+
+    def setup(self, ex):
+        st = St()
+        self.x = z3.Const('x', Val)
+        self.idx0 = z3.Int('idx0')
+        if self.interval_kind == 'none':
+            interval = NONE
+        elif self.interval_kind == 'int':
+            interval = z3.Int('interval')
+            st.assume(interval >= 1)
+        else:
+            interval = z3.Real('interval')
+            st.assume(interval > 0, interval < 1)
+        self.me = Rec(ex, 'self').init(st, _idx=self.idx0, _print_func=Nop(), _interval=interval, _exc_types=z3.Const('exc_types', Val),
+                                       _with_trace=z3.Bool('with_trace'), _prefix=z3.String('prefix'), _suffix=z3.String('suffix'))
+        st.env['self'] = self.me
+        st.env['x'] = self.x
+        ex.globals['random'] = Module('random')
+        ex.globals['random.random'] = Fn(lambda ex2, st2, a, k, n: (lambda r: [('ok', st2.fork().assume(r >= 0, r < 1), r)])(fresh('rnd', z3.RealSort())),
+                                         trusted='random.random() returns a float in [0, 1)')
+        ex.globals['remote_exception'] = Module('remote_exception')
+        ex.globals['remote_exception.is_remote_exception'] = Fn(lambda ex2, st2, a, k, n: [('ok', st2, fresh('is_remote', z3.BoolSort()))])
+        ex.globals['remote_exception.get_remote_traceback'] = Fn(lambda ex2, st2, a, k, n: [('ok', st2, fresh('tbtext', z3.StringSort()))])
+        ex.globals['traceback'] = Module('traceback')
+        ex.globals['traceback.format_tb'] = Fn(lambda ex2, st2, a, k, n: [('ok', st2, fresh('tblist'))])
+        return st
+
+    def on_call(self, ex, st, e, src):
+        if src == "''.join":
+            return ex.bind(ex.ev(e.args[0], st), lambda s, v: [('ok', s, fresh('joined', z3.StringSort()))])
+        return None
+
+    def post(self, ex, outs):
+        for k, s, p in outs:
+            if k in ('normal', 'return'):
+                ex.oblige(s, 'exit: identity: returns its argument unchanged; the element counter advanced by one',
+                          z3.And(box(ex, p) == self.x, self.me.get(s, '_idx') == self.idx0 + 1))
+            else:
+                ex.oblige(s, 'exit: never raises', False)
+
+
+class PeekerCallNone(PeekerCall):
+    interval_kind = 'none'
+    canaries = ()
+
+
+class PeekerCallFloat(PeekerCall):
+    interval_kind = 'float'
+    canaries = ()
+
+
+class B_peek(BuilderUnit):
+    qual = 'Stream.peek'
+    delegates = 'map'
+    # parameter normalisation of the message-formatting options is dropped (listed in evidence): it only rebinds
+    # free variables read by Peeker's printing code, which the property does not observe
+    ignore_stmts = (r'if interval is not None:.*', r'if exc_types is None:.*', r'if prefix:.*', r'if suffix:.*')
+
+    def post_delegate(self, ex, s, helper):
+        ctor = s.env.get('Peeker')
+        ex.oblige(s, 'exit: the function handed to map is a fresh Peeker()', helper == ctor.term(ex, [], {}) if isinstance(ctor, ClassCtor) else z3.BoolVal(False))
+
+
+UNITS += [FooUnit, B_filter_exceptions, AccumulatorCall, B_accumulate, PeekerCall, PeekerCallNone, PeekerCallFloat, B_peek]
+
+
+class Composition(LemmaUnit):
+    """Pipeline meaning = composition of operator meanings.  Every operator contract above is stated for an ARBITRARY
+    input stream (the symbolic Source), Stream.<op> wraps exactly the previous streamlet, <Op>.__init__ stores it as
+    `_instream`, and Stream.__iter__ iterates the last streamlet; so the induction over the builder sequence has the
+    step below (stage contract + wiring => composed meaning), checked here on uninterpreted stage meanings."""
+    prop = 'C03'
+    qual = 'lemma(composition)'
+
+    def lemmas(self):
+        M1 = z3.Function('meaning_prefix', SeqV, SeqV)      # meaning of the pipeline built so far
+        M2 = z3.Function('meaning_op', SeqV, SeqV)          # meaning of the operator appended by the builder
+        src, mid, out = z3.Consts('src mid out', SeqV)
+        yield ('induction step: (prefix yields M1(src)) and (new operator yields M2(its input)) and (its input is the prefix output) => pipeline yields M2(M1(src))',
+               [mid == M1(src), out == M2(mid)], out == M2(M1(src)))
+        # laziness composes additively: lookahead bounds of one-to-one stages add up
+        a, b, c, k1, k2 = z3.Ints('pulled mid_len out_len k1 k2')
+        yield ('laziness composes: pulled - mid <= k1 and mid - out <= k2 => pulled - out <= k1 + k2', [a - b <= k1, b - c <= k2], a - c <= k1 + k2)
+
+
+UNITS += [Composition]
+NOT_DECIDED = ('user functions passed to map/filter/accumulate are modelled as uninterpreted functions of their argument (statefulness other than Accumulator/Peeker is outside the model)',
+               'unbatch of general iterables (only list/tuple elements are modelled)',
+               'meaning of itertools.groupby, random.shuffle/randrange, functools.partial, list() (trusted stdlib contracts)')
+ASSUMPTIONS = ('lists are modelled by value: a list that escapes (is yielded) is not mutated afterwards by the operator (checked syntactically by the unsupported-construct rule: unknown mutating methods make the unit undecided)',
+               'stream elements have a total, side-effect free == and truthiness',
+               'functions under contract are executed by CPython as pyvc\'s documented subset semantics says')
